@@ -65,7 +65,7 @@ func c14Child(run *evid.Run, batch, nb int, j *Journal) {
 	}
 }
 
-var c14Kinds = []string{"live-append", "live-merge", "cross", "ring", "cross", "live-append", "cross-4party", "stalled-reader", "ladder", "after-refusals", "hub"}
+var c14Kinds = []string{"live-append", "live-merge", "cross", "ring", "cross", "live-append", "cross-4party", "stalled-reader", "ladder", "after-refusals", "hub", "bounded-source"}
 var c14Regimes = []string{"free", "noise", "park-source-heads-read", "park-source-entries-read", "park-holding-own-lock"}
 
 // c14FourParty: two logs merge each other in loops while a separate goroutine appends to each of them. With two
@@ -336,6 +336,10 @@ func c14Scenario(run *evid.Run, i int, j *Journal) {
 	}
 	if kind == "hub" {
 		c14Hub(run, i, j)
+		return
+	}
+	if kind == "bounded-source" {
+		c14BoundedSource(run, i, j)
 		return
 	}
 	regime := c14Regimes[(i/len(c14Kinds))%len(c14Regimes)]
@@ -745,8 +749,12 @@ func c14AfterRefusals(run *evid.Run, i int, j *Journal) {
 // Checked: termination (state-based), and after a final round every log holds everything.
 func c14Hub(run *evid.Run, i int, j *Journal) {
 	rng := rand.New(rand.NewSource(run.Seed*1031 + int64(i)))
-	w := hx.NewWorld(run.Seed, 4, fmt.Sprintf("c14h-%d-%d", run.Seed, i), "hash", "cbor")
 	k := i / len(c14Kinds)
+	codec, blen := "cbor", 2
+	if k%3 == 1 {
+		codec, blen = "link", 12 // sealed links: every validation worker re-seals; merges bring dozens of entries at once
+	}
+	w := hx.NewWorld(run.Seed, 4, fmt.Sprintf("c14h-%d-%d", run.Seed, i), "hash", codec)
 	label := fmt.Sprintf("#%d hub: %d spokes merge from a hub that merges frozen branches, a stale copy of itself and the spokes", i, 3+k%2)
 	j.Log(map[string]any{"scenario": label})
 	hub := w.NewLog(0)
@@ -756,7 +764,7 @@ func c14Hub(run *evid.Run, i int, j *Journal) {
 	var branches []*ipfslog.IPFSLog
 	for b := 0; b < 6+rng.Intn(8); b++ {
 		f := w.NewLog(1 + b%3)
-		for n := 0; n < 1+rng.Intn(2); n++ {
+		for n := 0; n < 1+rng.Intn(blen); n++ {
 			_, _ = f.Append(w.Ctx, []byte(fmt.Sprintf("branch%d-%d", b, n)), nil)
 		}
 		branches = append(branches, f)
@@ -843,4 +851,57 @@ func c14Hub(run *evid.Run, i int, j *Journal) {
 		}
 	}
 	run.NonTrivial("hub/" + model.DigestSeq(tr))
+}
+
+// c14BoundedSource: the SOURCE keeps a constant size (it is refreshed by size-bounded merges, like a feed that keeps
+// its newest n entries) while a destination merges from it again and again - quiescent between the steps, so
+// every merge result must be exactly what the destination held plus what the source holds at that moment.
+func c14BoundedSource(run *evid.Run, i int, j *Journal) {
+	rng := rand.New(rand.NewSource(run.Seed*1201 + int64(i)))
+	w := hx.NewWorld(run.Seed, 3, fmt.Sprintf("c14b-%d-%d", run.Seed, i), "hash", "cbor")
+	n := 2 + rng.Intn(4)
+	label := fmt.Sprintf("#%d bounded-source: a source that keeps its newest %d entries is merged from after every refresh", i, n)
+	j.Log(map[string]any{"scenario": label})
+	feed, src, dst := w.NewLog(0), w.NewLog(1), w.NewLog(2)
+	wit := func(at string) map[string]any { return map[string]any{"scenario": label, "seed": run.Seed, "at": at} }
+	rounds := 4 + rng.Intn(5)
+	for r := 0; r < rounds; r++ {
+		for k := 0; k < 1+rng.Intn(n+1); k++ {
+			if _, err := feed.Append(w.Ctx, []byte(fmt.Sprintf("feed-r%d-%d", r, k)), nil); err != nil {
+				return
+			}
+		}
+		if _, err := src.Join(feed, n); err != nil {
+			run.Violate("C14/join-error", det("kind", "bounded-source"), wit(fmt.Sprintf("round %d refresh", r)), "size-bounded refresh of the source failed: %v", err)
+			return
+		}
+		before, so := hx.Observe(dst), hx.Observe(src)
+		if _, err := dst.Join(src, -1); err != nil {
+			run.Violate("C14/join-error", det("kind", "bounded-source"), wit(fmt.Sprintf("round %d merge", r)), "merge from the bounded source failed: %v", err)
+			return
+		}
+		after := hx.Observe(dst)
+		run.Count("merges_from_a_constant_size_source", 1)
+		want := model.Union(before.Set, so.Set)
+		if !model.SameKeys(after.Set, want) {
+			missing := ""
+			for hsh, e := range so.Set {
+				if _, ok := after.Set[hsh]; !ok {
+					missing = e.Payload
+					break
+				}
+			}
+			run.Violate("C14/not-a-snapshot", det("kind", "bounded-source"), wit(fmt.Sprintf("round %d", r)), "after merging from a source of constant size %d the destination holds %d entries, the union with what the source holds now has %d (e.g. %q of the source is missing)", len(so.Set), len(after.Set), len(want), missing)
+			return
+		}
+		for _, hd := range so.Heads {
+			if _, ok := after.Set[hd]; !ok {
+				run.Violate("C14/not-a-snapshot", det("kind", "bounded-source"), wit(fmt.Sprintf("round %d", r)), "head %s of the source is missing from the merge result", hx.Short(hd))
+				return
+			}
+		}
+	}
+	run.Eval(1)
+	run.Count("scenarios_bounded-source", 1)
+	run.NonTrivial(fmt.Sprintf("bounded-source/%d/%d", n, rounds))
 }
